@@ -380,3 +380,56 @@ Proof.
   intros. split; [vm_compute; reflexivity|]. split; [vm_compute; reflexivity|]. split; [vm_compute; reflexivity|].
   split; [vm_compute; reflexivity|]. split; [eexists; vm_compute; reflexivity|]. vm_compute; reflexivity.
 Qed.
+
+(* ================================================================== from the text to the RENDERED
+   message.  Whatever error the SELECT pipeline returns for a query text q -- at BuildPlan
+   (parser, checker, call check, buildFinalPlan, AggregatePlan.Init) or while draining, row mode
+   or batch mode at any batch size, any store --, once bound to q (BindQuery) with any padding
+   (SetPadding, also negative) and any message: its position is -1 or an offset INSIDE q, and
+   Error() returns a string (no slice-bounds panic in outputQueryAndErrPos).  [re_plain]: the
+   regexp oracle returns no positional error of its own (C17). *)
+From KV Require Model.TextErr Spec.CaretSpec Proofs.ExecPosProofs.
+Theorem error_of_text_renders :
+  forall (fo : fops) (re : bytes -> bytes -> res bool) (fmt_v : F fo -> string), ExecPosProofs.re_plain re ->
+  forall (ag : SelectPlans.aggops fo) (pi pf : bytes -> option Z)
+         (q : string) (d : Storage.store) (m : Pipeline.tmode) (msg : string) (pad : Z) (e : ErrRender.qerror),
+  TextErr.st_error q msg pad (AggErrPos.select_stmt_text_stp fo re fmt_v ag pi pf q d m) = Some e ->
+  ErrRender.e_query e = q /\
+  CaretSpec.pos_in_query q (ErrRender.e_pos e) = true /\
+  exists s, ErrRender.error_text true e = ErrRender.Ok s.
+Proof. exact NoPanicTextProofs.error_of_text_renders. Qed.
+Print Assumptions error_of_text_renders.
+
+(* the BuildPlan half, new here (C17 has the parser / checker and the drain): also the errors of
+   buildFinalPlan and of AggregatePlan.Init (argument counts, group_concat's separator) carry -1
+   or an offset inside the query *)
+Theorem build_plan_error_positions :
+  forall (fo : fops) (re : bytes -> bytes -> res bool) (fmt_v : F fo -> string) (q : string),
+  match PipelineS.plan_stmt_text fo re fmt_v q with
+  | PipelineS.STReject z => CaretSpec.pos_in_query q z = true
+  | PipelineS.STBuildErr (EExec p) | PipelineS.STBuildErr (ESyntax p) => CaretSpec.pos_in_query q (Z.of_nat p) = true
+  | _ => True
+  end.
+Proof.
+  intros fo re fmt_v q. pose proof (NoPanicTextProofs.plan_stmt_text_err_pos fo re fmt_v q) as H.
+  destruct (PipelineS.plan_stmt_text fo re fmt_v q) as [a|z|[p|p|]|e| | | |]; exact H || exact I.
+Qed.
+Print Assumptions build_plan_error_positions.
+
+(* non-vacuity: three texts whose error the theorem speaks about -- a drain error in an aggregate
+   argument (batch mode), an arity error of AggregatePlan.Init, a corrupted text -- with the
+   error value bound to the text *)
+Example error_of_text_renders_nonvacuous :
+  forall (fo : fops) (re : bytes -> bytes -> res bool) (fmt_v : F fo -> string)
+         (ag : SelectPlans.aggops fo) (pi pf : bytes -> option Z),
+  let d := [("a", "3"); ("ab", "1"); ("b", "2"); ("c", "1")] in
+  let q1 := "select sum(10 / (int(value) - 2)) as s where key > ''" in
+  let q2 := "select count() where key > ''" in
+  let q3 := "select key, where )( order by" in
+  TextErr.st_error q1 "Divide by zero" 7 (AggErrPos.select_stmt_text_stp fo re fmt_v ag pi pf q1 d (Pipeline.MBatch 2)) =
+    Some (ErrRender.QError ErrRender.ExecuteErr q1 "Divide by zero" 28 7) /\
+  TextErr.st_error q2 "m" 0 (AggErrPos.select_stmt_text_stp fo re fmt_v ag pi pf q2 d Pipeline.MRow) =
+    Some (ErrRender.QError ErrRender.ExecuteErr q2 "m" 7 0) /\
+  TextErr.st_error q3 "m" (-3) (AggErrPos.select_stmt_text_stp fo re fmt_v ag pi pf q3 d Pipeline.MRow) =
+    Some (ErrRender.QError ErrRender.SyntaxErr q3 "m" 18 (-3)).
+Proof. intros. split; [vm_compute; reflexivity|]. split; vm_compute; reflexivity. Qed.
